@@ -248,7 +248,7 @@ func in(errBuf *strings.Builder, validName, objName, fieldName string, tv reflec
 
 	// 取右括号的下标
 	rightBracketIndex := strings.LastIndex(val, ")")
-	if leftBracketIndex == -1 || rightBracketIndex == -1 {
+	if leftBracketIndex == -1 || rightBracketIndex < leftBracketIndex {
 		errBuf.WriteString(GetJoinFieldErr(objName, fieldName, useErrMsg))
 		return
 	}
@@ -476,9 +476,12 @@ func Datetime(errBuf *strings.Builder, validName, objName, fieldName string, tv 
 	_, val, cusMsg := ParseValidNameKV(validName)
 	defaultSplit := []string{"-", " ", ":"}
 	if val != "" {
-		for i, split := range strings.Split(strings.Trim(val, "'"), ",") {
-			defaultSplit[i] = split
+		splits := strings.Split(strings.Trim(val, "'"), ",")
+		if len(splits) > len(defaultSplit) {
+			errBuf.WriteString(GetJoinFieldErr(objName, fieldName, datetimeErr))
+			return
 		}
+		copy(defaultSplit, splits)
 	}
 	_, err := time.Parse(GetTimeFmt(DateTimeFmt, defaultSplit...), tv.String())
 	if err == nil {
@@ -505,12 +508,12 @@ func Re(errBuf *strings.Builder, validName, objName, fieldName string, tv reflec
 
 	// 解析正则, 使用格式: re='\\d+'|匹配错误
 	splitIndex := strings.Index(validName, "'")
-	if splitIndex == -1 {
+	l := len(validName)
+	if splitIndex == -1 || splitIndex == l-1 { // 没有 "'" 或 "'" 后没有内容
 		errBuf.WriteString(GetJoinFieldErr(objName, fieldName, reErr))
 		return
 	}
 
-	l := len(validName)
 	b := make([]byte, 0, l)
 	i := splitIndex + 1
 	for ; i < l; i++ {
